@@ -741,8 +741,12 @@ func exploreJointModes(r *core.Run, sc Scenario, opt Options, sys *explore.Sys, 
 				return
 			}
 			terminal(sys, dr.Locals, explore.TraceStrings(dr.Trace), dr.Net)
-			if len(dr.Script) == 0 || len(st.Samples) < 3 {
-				st.Samples = append(st.Samples, map[string]interface{}{"scenario": sc.Name, "kind": fmt.Sprintf("complete run with deviations %v", dr.Script), "trace": explore.TraceStrings(dr.Trace)})
+			if len(dr.Script) == 0 || len(st.Samples) < 3 || dr.Name == "lifo" {
+				kind := fmt.Sprintf("complete run with deviations %v", dr.Script)
+				if dr.Name != "" {
+					kind = "directed strategy " + dr.Name
+				}
+				st.Samples = append(st.Samples, map[string]interface{}{"scenario": sc.Name, "kind": kind, "trace": explore.TraceStrings(dr.Trace)})
 			}
 		})
 		st.States, st.Transitions, st.Terminals = len(states), trans, runs
